@@ -4,7 +4,7 @@
 From Coq Require Import List String Ascii Bool Arith ZArith Lia Permutation Sorting.Sorted.
 From Coq Require Import Structures.OrderedTypeEx.
 Import ListNotations.
-From BD.Hist Require Import Model.
+From BD.Hist Require Import Model SModel.
 Open Scope string_scope.
 
 (* ---------- String.ltb ------------------------------------------------------------------------ *)
@@ -245,3 +245,22 @@ Lemma last_opt_app {A} (l : list A) x : last (map Some (l ++ [x])%list) None = S
 Proof. induction l; simpl; auto. destruct (l ++ [x])%list eqn:E; [destruct l; discriminate|]. simpl in *. auto. Qed.
 Lemma last_rec_app l x acc : last_rec (l ++ [x])%list acc = match x with Rec p => Some p | Junk _ => last_rec l acc end.
 Proof. revert acc. induction l as [|i l IH]; intros acc; simpl; [destruct x; auto|]. destruct i; rewrite IH; auto. Qed.
+
+(* ---------- file keys ---------------------------------------------------------------------------- *)
+Lemma skey_eqb_eq a b : skey_eqb a b = true <-> a = b.
+Proof.
+  unfold skey_eqb. split.
+  - intros H. repeat match goal with H : (_ && _)%bool = true |- _ => apply andb_prop in H; destruct H end.
+    repeat match goal with X : String.eqb _ _ = true |- _ => apply String.eqb_eq in X | X : Bool.eqb _ _ = true |- _ => apply Bool.eqb_prop in X end.
+    destruct a, b; simpl in *; subst; auto.
+  - intros ->. rewrite !String.eqb_refl, Bool.eqb_reflx. auto.
+Qed.
+Lemma skey_eqb_refl a : skey_eqb a a = true.
+Proof. apply skey_eqb_eq; auto. Qed.
+Lemma skey_eqb_sym a b : skey_eqb a b = skey_eqb b a.
+Proof.
+  destruct (skey_eqb a b) eqn:E.
+  - apply skey_eqb_eq in E. subst. symmetry. apply skey_eqb_refl.
+  - destruct (skey_eqb b a) eqn:E2; auto. apply skey_eqb_eq in E2. subst. rewrite skey_eqb_refl in E. discriminate.
+Qed.
+
